@@ -81,6 +81,8 @@ def special_modules(rng):
     for o in ["+", "-", "*", "/", "==", "<", ">"]:
         for t in ["int", "uint", "float"]:
             out.append(("operator", Module([f("k", [("a", t), ("b", t)], t if o in "+-*/" else "int", [Ret(B(o, V("a"), V("b")))])])))
+    # unsigned subtraction below zero followed by a division (known finding KF-03)
+    out.append(("uint-underflow", Module([f("w0", [("p2", "uint")], "uint", [Ret(B("/", V("p2"), B("-", B("-", V("p2"), V("p2")), V("p2"))))])])))
     # names
     out.append(("names", Module([f("a_rather_long_function_name_to_make_the_export_section_longer_than_127_bytes_" + "x" * 60, [("a", "int")], "int", [Ret(V("a"))]), f("b", [], "int", [Ret(I(1))])])))
     return out
